@@ -205,6 +205,45 @@ Section SpecJet.
     mkWB m com vel acc L dL ke pe.
 End SpecJet.
 
+(* ---------- rigid union / difference of two bodies (C15), from the definitions ---------- *)
+Section SpecUnion.
+  Context {T : Type} (O : Ops T).
+  (* parallel-axis term  (d.d) 1 - d d^T *)
+  Definition par_axis (d : V3 T) : M3 T :=
+    m3sub O (m3scale O (v3dot O d d) (m3id O)) (m3outer O d d).
+  (* body b is given in its own frame; X = (E, r) places that frame in a's frame *)
+  Definition spec_union (sub : bool) (ma : T) (ca : V3 T) (Ia : M3 T) (X : ST T) (mb : T) (cb : V3 T) (Ib : M3 T)
+    : T * V3 T * M3 T :=
+    let cb' := v3add O (m3Tv O (stE X) cb) (str X) in
+    let Ib' := m3mul O (m3mul O (m3T (stE X)) Ib) (stE X) in
+    let sg := if sub then oopp O (o1 O) else o1 O in
+    let m := oadd O ma (omul O sg mb) in
+    let com := v3scale O (odiv O (o1 O) m) (v3add O (v3scale O ma ca) (v3scale O (omul O sg mb) cb')) in
+    let I := m3add O (m3add O Ia (m3scale O ma (par_axis (v3sub O ca com))))
+                     (m3scale O sg (m3add O Ib' (m3scale O mb (par_axis (v3sub O cb' com))))) in
+    (m, com, I).
+End SpecUnion.
+
+(* ---------- energy balance (C12): d(KE+PE)/dt minus the power of the external forces ---------- *)
+Section SpecPower.
+  Context {T : Type} (O : Ops T).
+  Local Notation t0 := (o0 O).
+  Definition energy_rate (nodes : list (Node T)) (sph : list (nat * nat)) (ndof : nat) (g : V3 T)
+             (q qd qdd : list T) (fext : list (SV T)) : T * T :=
+    let ks := kstates O nodes sph ndof q qd qdd in
+    let dn := mkNode None (stid O) [] t0 (v3zero O) (m3zero O) false in
+    fold_left (fun (acc : T * T) i =>
+      let nd := nth i nodes dn in let k := nth i ks (kstate O (pose_id (jet_ops O))) in
+      let vc := k_vel O k (ncom nd) in let ac := k_acc O k (ncom nd) in
+      let Iw := m3mul O (m3mul O (kR k) (ninertia nd)) (m3T (kR k)) in
+      let dE := oadd O (osub O (omul O (nmass nd) (v3dot O vc ac)) (omul O (nmass nd) (v3dot O g vc)))
+                       (v3dot O (kw k) (m3v O Iw (kdw k))) in
+      let fe := nth i fext (svzero O) in
+      let vO := v3sub O (kpd k) (v3cross O (kw k) (kp k)) in
+      let P := oadd O (v3dot O (kw k) (svang fe)) (v3dot O vO (svlin fe)) in
+      (oadd O (fst acc) dE, oadd O (snd acc) P)) (iota 0 (length nodes)) (t0, t0).
+End SpecPower.
+
 (* ---------- building the spec-level tree directly from the construction calls ---------- *)
 Section SpecBuild.
   Context {T : Type} (O : Ops T).
